@@ -3944,6 +3944,12 @@ class Fused(Blockwise):
     def _divisions(self):
         return self.exprs[0]._divisions()
 
+    def simplify_once(self, dependents: defaultdict, simplified: dict):
+        # The fused group refers to its external dependencies by name: they
+        # must not be rewritten (renamed) without the group. A fused expression
+        # comes out of a complete optimization, so there is nothing to gain.
+        return self
+
     def _broadcast_dep(self, dep: Expr):
         # Always broadcast single-partition dependencies in Fused
         return dep.npartitions == 1
